@@ -6,6 +6,7 @@ import HopModel.Driver.C03
 import HopModel.Driver.C01
 import HopModel.Driver.C02
 import HopModel.Driver.C19
+import HopModel.Driver.C10
 import HopModel.Driver.C13
 import HopModel.Driver.C12
 
@@ -21,6 +22,7 @@ def main (args : List String) : IO UInt32 := do
   | "C01" :: rest => Driver.C01.main rest; return 0
   | "C02" :: rest => Driver.C02.main rest; return 0
   | "C19" :: rest => Driver.C19.main rest; return 0
+  | "C10" :: rest => Driver.C10.main rest; return 0
   | "C13" :: rest => Driver.C13.main rest; return 0
   | "C12" :: rest => Driver.C12.main rest; return 0
   | _ =>
